@@ -532,11 +532,13 @@ class Lib:
             selfobj = getattr(fn, "__self__", None)
             if isinstance(fn, functools.partial):
                 return I.call(fn.func, list(fn.args) + list(args), {**fn.keywords, **kwargs}, node)
-            if not S.is_repo_function(fn) and not (deep_concrete(args) and deep_concrete(kwargs)):
-                # interpreter callables passed as callbacks to a library function (re.sub, sorted key, ...):
-                # wrap them as python callables that re-enter the interpreter; everything else must be concrete
+            has_repo_cb = any(S.is_repo_function(x) for x in list(args) + list(kwargs.values()))
+            if not S.is_repo_function(fn) and (has_repo_cb or not (deep_concrete(args) and deep_concrete(kwargs))):
+                # callables passed as callbacks to a library function (re.sub, sorted key, ...): interpreter callables AND
+                # repository functions are wrapped as python callables that re-enter the interpreter (so the callback
+                # is analysed from its AST); everything else must be concrete
                 def nat(v):
-                    if isinstance(v, (Func, Bound, LibFn)):
+                    if isinstance(v, (Func, Bound, LibFn)) or S.is_repo_function(v):
                         return lambda *aa, **kk: I.call(v, list(aa), kk, node)
                     return v
                 a2 = [nat(x) for x in args]
